@@ -287,6 +287,12 @@ def merge_spec(draw, tier):
     for k in range(1, n):
         d = d0 if pattern == "equal" else draw(st.sampled_from(cand))
         parts.append(draw(derived_part(base, d, prof, "P%d" % k, "abcd"[k] + "x")))
+    # nothing requires part ids to be unique (parts built one by one, or taken from different
+    # scores, commonly share one): a fifth of the cases repeat an id
+    if draw(st.integers(0, 4)) == 0:
+        for k in range(1, n):
+            if draw(st.booleans()):
+                parts[k]["id"] = parts[draw(st.integers(0, k - 1))]["id"]
     reassign = draw(st.sampled_from(MODES))
     # auto mode can only be judged on "tidy" parts (see tidy_part): make those the majority there
     tidy = draw(st.sampled_from([True, True, True, False])) if reassign == "auto" else draw(st.booleans())
